@@ -1,0 +1,12 @@
+//go:build !verif
+
+package mfs
+
+import ipld "github.com/ipfs/go-ipld-format"
+
+// verifSched is a schedule point used by the verification harness (build tag
+// "verif"). Without the tag it is empty and inlined away.
+func verifSched(string) {}
+
+// verifRootUpdate observes the node handed to Root.updateChildEntry.
+func verifRootUpdate(ipld.Node) {}
